@@ -355,8 +355,8 @@ func (su *Summarize) optIdx(mode Mode) (Cost, Cost, any) {
 	}
 	srcReq := OrderReq(su.ons, frac)
 	fixcost, varcost := Optimize(su.source, mode, srcReq)
-	return fixcost, varcost,
-		&summarizeApproach{strat: sumIdx, index: su.ons, req: srcReq}
+	// no index for Select, a selection on the on column applies to the result
+	return fixcost, varcost, &summarizeApproach{strat: sumIdx, req: srcReq}
 }
 
 func (su *Summarize) optMap(mode Mode, req Require) (Cost, Cost, any) {
